@@ -243,6 +243,8 @@ def monitor(traces, invariants, workdir):
 
 def check(report: common.Report, prop: str):
     common.import_lib()
+    from .. import design  # pylint: disable=import-outside-toplevel
+    design.check(report, prop)
     thorough = report.tier == 'thorough'
     all_sc = scenarios.all_scenarios(thorough)
     want = ('crash',) if prop == 'C05' else ('power',)
